@@ -538,7 +538,7 @@ Theo::MacroApplicationResult Theo::apply_macros(
     }
     if (!changed) break;
   }
-  THEO_VERIF_POINT(MACRO_PASS_END, passes, changed);
+  THEO_VERIF_POINT(MACRO_PASS_END, input.size(), changed);
 
   if (changed)
     res.errors.push_back(ParseError{
